@@ -311,6 +311,9 @@ class Emitter:
                     f.name, gt, h, f.name, f.name))
             else:
                 lines.append('\tfill_%s(&p.%s, name+".%s", 0)' % (h, f.name, f.name))
+        if sd.has_unknown:
+            # a recycled destination: the holder still has the previous message's retained bytes (and spare capacity)
+            lines.append('\tp._unknownFields = prefillUnknown(name + "._unknown")')
         lines.append('}')
         fo.append('\n'.join(lines))
         # typeOps
@@ -321,10 +324,11 @@ class Emitter:
 	NewZero: func() interface{} { return new(%s) },
 	ToRef:   func(p interface{}) *RVal { return refS_%s(p.(*%s)) },
 	Deref:   func(p interface{}) interface{} { return *(p.(*%s)) },
+	Clone:   func(p interface{}) interface{} { c := *(p.(*%s)); return &c },
 	Fill:    func(p interface{}, name string) { fillS_%s(p.(*%s), name, 0) },
 	Prefill: func(p interface{}, name string) { prefillS_%s(p.(*%s), name) },
 	Walk:    func(p interface{}, w *walker) { walkS_%s(p.(*%s), w, "w") },
-}''' % (sd.name, sd.name, newf, sd.name, sd.name, sd.name, sd.name, sd.name, sd.name, sd.name, sd.name, sd.name, sd.name))
+}''' % (sd.name, sd.name, newf, sd.name, sd.name, sd.name, sd.name, sd.name, sd.name, sd.name, sd.name, sd.name, sd.name, sd.name))
 
     def emit_file(self, structs, bounds, entries):
         """structs: StructDefs to include (with everything reachable); entries: list of (funcname, body)"""
